@@ -76,6 +76,11 @@ func c05Cases(seed int64, tier string) []core.Case {
 	cs = append(cs, core.MkCase("fill-0", "fill", seed, ext4Case{Cfg: Ext4Cfg{Size: 16 << 20}, Mode: "fill", Fsck: 25}))
 	cs = append(cs, core.MkCase("dirgrow-0", "dirgrow", seed, ext4Case{Cfg: Ext4Cfg{Size: 16 << 20}, Mode: "dirgrow", Steps: 60, Fsck: 5}))
 	cs = append(cs, core.MkCase("appendspan-0", "appendspan", seed, ext4Case{Cfg: Ext4Cfg{Size: 32 << 20, SPB: 2, BPG: 4096}, Mode: "appendspan", Steps: 330, Fsck: 60}))
+	cs = append(cs, core.MkCase("inodeedge-0", "inodeedge", seed, ext4Case{Cfg: Ext4Cfg{Size: 16 << 20}, Mode: "inodeedge", Fsck: 500}))
+	if tier == "thorough" {
+		cs = append(cs, core.MkCase("inodeedge-1", "inodeedge", seed+1, ext4Case{Cfg: Ext4Cfg{Size: 40 << 20, SPB: 2, BPG: 8192}, Mode: "inodeedge", Fsck: 500}),
+			core.MkCase("inodeedge-2", "inodeedge", seed+2, ext4Case{Cfg: Ext4Cfg{Size: 32 << 20, SPB: 8, Start: 1 << 20}, Mode: "inodeedge", Fsck: 500}))
+	}
 	nf := 3
 	if tier == "thorough" {
 		nf = 24
@@ -105,7 +110,7 @@ func init() {
 		Rule: "ext4.Create over a grid of parameter sets (block size 1/2/4 KiB or default, blocks per group 256..8192, inode ratio/count, reserved %, log flex groups, features journal/64bit/flex_bg/metadata_csum/gdt_csum/sparse_super2/resize_inode/dir_index/huge_file on or off, sizes 6 MiB..1 GiB sparse, start 0/512/4096/1 MiB), each image handed to the reference checker e2fsck -f -n (independent implementation); then C04 histories with e2fsck after EVERY call, accepted or refused (fill workload: every 25th call and every refused call; directory-growth workload - two directories of 150..240-character names growing block by block between file allocations until they span far more than four extents, then thinned and regrown - every 5th call; append workload - a file grown by 64-block appends, one grown by 4 MiB appends to 100 MiB (contiguous runs longer than the 32768 blocks one initialised extent can describe), and one grown by 9000 two-block appends that fill group tails exactly, across several 4096-block groups, so that extents span group boundaries, then removed, twice - every 60th call and explicitly after growing and after releasing), and debugfs extraction of every file compared byte-for-byte with what was written; a refusal by Create is an observation; non-trivial = image accepted by Create and checked; distinct = distinct (parameter set, executed history)",
 		Assumptions: []string{"e2fsck/debugfs 1.47.0 from e2fsprogs are the reference implementation", "images are real sparse files under /dev/shm; e2fsck is given file?offset=N for volumes at a non-zero start"},
 		MinSigs:   map[string]int{"quick": 20, "thorough": 300},
-		NeedMarks: []string{"ENOSPC reached", "directories grown block by block between other allocations", "file grown by appends across block groups and released", "fragmented directory shrunk block by block with allocations in between"},
+		NeedMarks: []string{"ENOSPC reached", "directories grown block by block between other allocations", "file grown by appends across block groups and released", "fragmented directory shrunk block by block with allocations in between", "objects created and removed at the last and first inode numbers of block groups", "inode table used up"},
 		CPUSec:    900,
 		Cases:     c05Cases,
 		Run:       func(c core.Case, env *core.Env) core.Result { return runExt4Case("C05", c, env) },
